@@ -270,7 +270,7 @@ static void worker_main(PropertyDef *def, const std::string &tier, uint64_t seed
 
 struct BatchOut {
   WorkerSummary sum; std::vector<Json> violations; std::vector<std::string> known_sigs; std::vector<uint64_t> hangs, deaths; std::vector<int> death_status;
-  std::map<uint64_t, std::pair<std::string, std::string>> hashes;
+  std::map<uint64_t, std::pair<std::string, std::string>> hashes; uint64_t started = 0;
 };
 
 static void run_batch(PropertyDef *def, const std::string &tier, uint64_t seed, uint64_t n, int J, const std::string &images, const std::string &outdir, double deadline, bool hash_only, BatchOut &bo) {
@@ -298,7 +298,7 @@ static void run_batch(PropertyDef *def, const std::string &tier, uint64_t seed, 
       size_t e;
       while ((e = wk.buf.find('\n')) != std::string::npos) {
         std::string l = wk.buf.substr(0, e); wk.buf.erase(0, e + 1);
-        if (l.compare(0, 2, "S ") == 0) wk.cur = atol(l.c_str() + 2);
+        if (l.compare(0, 2, "S ") == 0) { wk.cur = atol(l.c_str() + 2); bo.started++; }
         else if (l.compare(0, 2, "V ") == 0) { try { bo.violations.push_back(Json::parse(l.substr(2))); } catch (...) {} }
         else if (l.compare(0, 2, "K ") == 0) bo.known_sigs.push_back(l.substr(2));
         else if (l.compare(0, 5, "HANG ") == 0) bo.hangs.push_back((uint64_t)atol(l.c_str() + 5));
@@ -404,13 +404,15 @@ int check_main(int argc, char **argv) {
     if (died) report_violation(std::string(id) + "." + what, std::string("the simulated program crashed the worker (") + what + ", wait status " + std::to_string(st) + "); see sanitizer output with: simq replay " + path, path);
     else { printf("simq: worker %s on plan %llu did not reproduce in a fresh process (%s)\n", what, (unsigned long long)i, line.c_str()); if (exit_code != 1) exit_code = 2; }
   };
-  for (uint64_t i : bo.deaths) handle_bad_plan(i, "memory-safety-or-crash");
-  for (uint64_t i : bo.hangs) handle_bad_plan(i, "no-progress");
+  std::sort(bo.deaths.begin(), bo.deaths.end()); std::sort(bo.hangs.begin(), bo.hangs.end());
+  { int before = nviol; size_t kf = known_printed.size(); for (uint64_t i : bo.deaths) { handle_bad_plan(i, "memory-safety-or-crash"); if (nviol > before || known_printed.size() > kf) break; } }
+  { int before = nviol; size_t kf = known_printed.size(); for (uint64_t i : bo.hangs) { handle_bad_plan(i, "no-progress"); if (nviol > before || known_printed.size() > kf) break; } }
 
   WorkerSummary &s = bo.sum;
   if (s.infra > 0) { printf("simq: %llu runs ended with an infrastructure error: %s\n", (unsigned long long)s.infra, s.infra_note.c_str()); if (exit_code != 1) exit_code = 2; }
   if (s.runs > 50 && s.inconclusive * 100 > s.runs) { printf("simq: %llu of %llu runs inconclusive (budget exhausted) - workload and budgets do not fit\n", (unsigned long long)s.inconclusive, (unsigned long long)s.runs); if (exit_code != 1) exit_code = 2; }
-  if (s.runs == 0) { printf("simq: no plan was run\n"); if (exit_code != 1) exit_code = 2; }
+  if (s.runs == 0 && bo.started == 0) { printf("simq: no plan was run\n"); if (exit_code != 1) exit_code = 2; }
+  if (s.runs < bo.started) s.runs = bo.started;   // workers that died took their tallies with them
 
   for (auto &c : s.classes) printf("simq:   %s x%llu\n", c.first.c_str(), (unsigned long long)c.second);
   // 5. evidence
